@@ -105,6 +105,12 @@ def decide(prop_id, tier, seed, registry=None, keep_out=False):
     else:
         for r in (P["runs"].get(tier) or P["runs"]["quick"]):
             plan.append((P["engine"], prop_id, r))
+    # development aids (never used by the registered commands): restrict configs / override args
+    if os.environ.get("VERIF_ONLY_CONFIG"):
+        plan = [x for x in plan if x[2]["config"] in os.environ["VERIF_ONLY_CONFIG"].split(",")]
+    if os.environ.get("VERIF_EXTRA_ARGS"):
+        extra = dict(kv.split("=", 1) for kv in os.environ["VERIF_EXTRA_ARGS"].split(","))
+        plan = [(a, b, dict(r, args=dict(r.get("args", {}), **extra))) for (a, b, r) in plan]
     try:
         for ri, (eng_name, harness_prop, r) in enumerate(plan):
             E = engines[eng_name]
